@@ -1,7 +1,7 @@
 """Grammar-based generator of MPS-convertible networks (shared by c02.py / c05.py).
 
 A network is a JSON-able node list in topological order; node i refers to earlier nodes by index:
-  {'k':'in','c':C,'hw':H}
+  {'k':'in','c':C,'hw':H}                      ('dim':1 -> Conv1d network on (C,H) inputs; default 2-D on (C,H,H))
   {'k':'conv','src':i,'cin':..,'cout':..,'ks':1|3|5,'stride':1|2,'bias':bool}   full Conv2d (padding ks//2)
   {'k':'dw','src':i,'c':..,'ks':3,'bias':bool}                                 depthwise Conv2d
   {'k':'bn','src':i,'c':..,'dim':1|2}                                          BatchNorm (directly after conv/dw/lin: fused by MPS)
@@ -156,19 +156,22 @@ def build(nodes, seed):
             super().__init__()
             self.nodes = nodes
             self.layers = nn.ModuleDict()
+            one_d = nodes[0].get('dim', 2) == 1      # Conv1d networks (no BN after a 1-D conv.: MPS does not fuse it)
+            Conv = nn.Conv1d if one_d else nn.Conv2d
             for i, nd in enumerate(nodes):
                 k = nd['k']
                 m = None
                 if k == 'conv':
-                    m = nn.Conv2d(nd['cin'], nd['cout'], nd['ks'], stride=nd['stride'], padding=nd['ks'] // 2, bias=nd['bias'])
+                    m = Conv(nd['cin'], nd['cout'], nd['ks'], stride=nd['stride'], padding=nd['ks'] // 2, bias=nd['bias'])
                 elif k == 'dw':
-                    m = nn.Conv2d(nd['c'], nd['c'], nd['ks'], padding=nd['ks'] // 2, groups=nd['c'], bias=nd['bias'])
+                    m = Conv(nd['c'], nd['c'], nd['ks'], padding=nd['ks'] // 2, groups=nd['c'], bias=nd['bias'])
                 elif k == 'bn':
                     m = nn.BatchNorm2d(nd['c']) if nd['dim'] == 2 else nn.BatchNorm1d(nd['c'])
                 elif k == 'relu' and not nd['fn']:
                     m = nn.ReLU()
                 elif k == 'pool':
-                    m = {'max2': nn.MaxPool2d(2), 'avg2': nn.AvgPool2d(2), 'adapt': nn.AdaptiveAvgPool2d(1)}[nd['t']]
+                    m = ({'max2': nn.MaxPool1d(2), 'avg2': nn.AvgPool1d(2), 'adapt': nn.AdaptiveAvgPool1d(1)} if one_d else
+                         {'max2': nn.MaxPool2d(2), 'avg2': nn.AvgPool2d(2), 'adapt': nn.AdaptiveAvgPool2d(1)})[nd['t']]
                 elif k == 'lin':
                     m = nn.Linear(nd['cin'], nd['cout'], bias=nd['bias'])
                 if m is not None:
@@ -239,6 +242,11 @@ def input_group_requantized(nodes):
         elif (is_dw(nd) or nd['k'] == 'add') and any(s in grp for s in srcs):
             return True
     return False
+
+
+def input_shape(nodes):
+    nd = nodes[0]
+    return (nd['c'],) + (nd['hw'],) * nd.get('dim', 2)
 
 
 MPS_KINDS = ('in', 'conv', 'dw', 'lin', 'add')
